@@ -1,6 +1,8 @@
 package verifsim
 
 import (
+	"crypto/x509/pkix"
+	"math/big"
 	"sync"
 
 	"github.com/gr33nbl00d/caddy-revocation-validator/core"
@@ -17,6 +19,9 @@ type FaultyFactory struct {
 	mu    sync.Mutex
 	Plan  func(method string, temporary bool) error
 	Fired int
+	// failEmptyLookups: GetCertRevocationStatus fails with an I/O error on every store that holds no CRL (IsEmpty): the
+	// store of an entry that was never loaded
+	failEmptyLookups bool
 }
 
 func (f *FaultyFactory) plan(method string, temporary bool) error {
@@ -88,6 +93,19 @@ func (s *faultyStore) UpdateCRLLocations(p *core.CRLLocations) error {
 		return err
 	}
 	return s.CRLStore.UpdateCRLLocations(p)
+}
+
+func (s *faultyStore) GetCertRevocationStatus(issuer *pkix.RDNSequence, serial *big.Int) (*core.RevocationStatus, error) {
+	if err := s.f.plan("GetCertRevocationStatus", s.temp); err != nil {
+		return nil, err
+	}
+	if s.f.failEmptyLookups && !s.temp && s.CRLStore.IsEmpty() {
+		s.f.mu.Lock()
+		s.f.Fired++
+		s.f.mu.Unlock()
+		return nil, ErrIO
+	}
+	return s.CRLStore.GetCertRevocationStatus(issuer, serial)
 }
 
 // Update hands the real stores to each other: the backends type-assert their argument.
